@@ -108,6 +108,10 @@ def io_assumptions(f):
     return None
 
 
+def engine_filtered(res):
+    return res
+
+
 def key_of(rule, f, desc):
     return "%s | %s" % (f.path, desc)
 
@@ -156,6 +160,16 @@ class Inventory:
 
     def fn(self, f, assume):
         prog = self.prog
+        if f.path in ("df::assembler::Assembler::put", "df::parser::Parser::parse"):
+            # interior of the bit writer / reader: decided by partitioned abstract interpretation (bitsem), which evaluates every
+            # Assert terminator, every carrier shift and every buffer access in each (offset mod 8, width, carrier) partition
+            # and unrolls the loop (termination).  Preconditions (1 <= width <= carrier bits, cursor invariant) are R-width / P-pre.
+            import bitio
+            kind = "put" if f.path.endswith("put") else "parse"
+            if bitio.rule_bitsem(prog, engine_filtered(self.res), rule="P-sem", which=(kind,)):
+                self.stats["sem"] = self.stats.get("sem", 0) + 1
+                return
+            # not clean: fall through to the generic inventory so that the individual sites are reported as well
         fa = FA(f, prog)
         iv = Intervals(fa, prog, assume=assume)
         names = fa.names
